@@ -28,6 +28,14 @@ ONE_LINERS = [
     ("namespace N%d { }", "on_namespace_start"), ("using namespace u%d;", "on_using_namespace"), ("using x::y%d;", "on_using_declaration"),
     ("extern \"C\" int g%d();", "on_function"), ("#include <i%d.h>", "on_include"), ("template <typename T> void h%d(T t);", "on_function"),
     ("static int s%d = %d, s2_%d;", "on_variable"),
+    # rarely used declaration kinds: each takes its own path to the callback
+    ("enum class O%d : int;", "on_forward_decl"), ("enum P%d : unsigned char;", "on_forward_decl"), ("enum class Q%d;", "on_forward_decl"),
+    ("#pragma pr%d", "on_pragma"), ("template class TI%d<int>;", "on_template_inst"), ("namespace A%d = x::y;", "on_namespace_alias"), ("template <typename T> concept C%d = true;", "on_concept"),
+    ("template <typename T> struct TF%d;", "on_forward_decl"), ("extern int e%d;", "on_variable"), ("inline namespace IN%d { }", "on_namespace_start"),
+    ("template <typename T> using TA%d = T*;", "on_using_alias"), ("auto af%d() -> int;", "on_function"), ("union UF%d;", "on_forward_decl"),
+    ("template <typename T> D%d(T) -> D%d<T>;", "on_deduction_guide"), ("extern \"C\" { int ec%d; }", "on_variable"),
+    ("enum class EC%d : short { ek%d };", "on_enum"), ("typedef struct TS%d { int tm%d; } tsn%d;", "on_typedef"), ("struct SV%d { int sm%d; } sv%d;", "on_variable"),
+    ("void X::mi%d() {}", "on_method_impl"), ("template <> struct SP%d<int>;", "on_forward_decl"), ("extern template class ET%d<int>;", "on_template_inst"),
 ]
 FILLER = ["", "", "\n", "// comment\n", "/* multi\n line\n comment */\n", "\n\n\n", "/* one */\n", "   \n", "// a\n// b\n",
           # code on the closing line of a multi-line comment, the comment starting after indentation, a line comment or code
@@ -71,6 +79,10 @@ MEMBERS = [
     ("bool operator==(const O%d& o) const;", "on_class_method"), ("int b%d : 2;", "on_class_field"), ("struct I%d;", "on_forward_decl"),
     ("using B::z%d;", "on_using_declaration"), ("int g%d() { return 1; }", "on_class_method"), ("static int s%d;", "on_class_field"),
     ("virtual operator V%d&() = 0;", "on_class_method"), ("template <typename Q> operator W%d<Q>();", "on_class_method"),
+    ("enum class O%d : int;", "on_forward_decl"), ("enum P%d : unsigned char;", "on_forward_decl"), ("enum class Q%d;", "on_forward_decl"),
+    ("union UF%d;", "on_forward_decl"), ("template <typename T> struct TF%d;", "on_forward_decl"), ("friend void ff%d();", "on_class_friend"),
+    ("template <typename T> using TA%d = T*;", "on_using_alias"), ("enum class EC%d : short { ek%d };", "on_enum"), ("mutable int mu%d;", "on_class_field"),
+    ("struct SV%d { int sm%d; } sv%d;", "on_class_field"), ("auto af%d() -> int;", "on_class_method"), ("K%d(const K%d&) = delete;", "on_class_method"),
 ]
 MEMBER_FILLER = ["", "", "\n", "// c\n", "/* a\n b */\n", "\n\n", "public:\n", "private:\n", "/* one */\n"]
 
@@ -179,8 +191,10 @@ def run(ctx):
         idx = 0
         for sgi in range(nseg):
             if sgi > 0 or rng.random() < 0.5:
-                N = rng.randint(1, 500)
-                fn = rng.choice(["other.h", "dir/x.h", "a b.h", "C:\\\\p\\\\q.h"])
+                # line numbers far from and AT / next to the line the directive itself stands on (a re-basing that happens to
+                # leave the number unchanged must still change the file name), always to a different file name
+                N = rng.randint(1, 500) if rng.random() < 0.5 else max(1, cur_line + rng.choice([-1, 0, 0, 0, 1, 2]))
+                fn = rng.choice([f for f in ["other.h", "dir/x.h", "a b.h", "C:\\\\p\\\\q.h"] if f != cur_file])
                 form = rng.choice(['#line %d "%s"\n', '# %d "%s"\n', '#  line %d "%s"\n', '# %d "%s" 1\n'])
                 text += form % (N, fn)
                 cur_file, cur_line = fn, N
